@@ -67,7 +67,7 @@ class SrtParagraph:
 
   def is_only_whitespace(self):
     """Returns whether the paragraph tex contains only whitespace or is empty"""
-    return len(self._text) == 0 or self._text.isspace()
+    return len(self._plain) == 0 or self._plain.isspace()
 
   def normalize_eol(self):
     """Remove line breaks at the beginning and end of the paragraph, and replace
@@ -77,6 +77,11 @@ class SrtParagraph:
   def append_text(self, text: str):
     """Appends text to the paragraph"""
     self._text += text
+    self._plain += text
+
+  def append_markup(self, markup: str):
+    """Appends a tag, which is not text, to the paragraph"""
+    self._text += markup
 
   def to_string(self, sub_number: int=None) -> str:
     """Returns the SRT paragraph as a formatted string"""
